@@ -3,8 +3,8 @@ import TxV.Gen.CtlTable
 /-
 The control connection as a whole: Twisted's `LineOnlyReceiver` framing (as a byte automaton:
 a line is complete when LF arrives right after CR), `lineReceived` = line layer + queue layer,
-and the API calls.  `MAX_LENGTH` is not modelled (lines are assumed shorter; `Gen.ctlMaxLength`
-records the constant and the harness stays below it).
+and the API calls.  `MAX_LENGTH` is not modelled (lines are assumed shorter than 2^20; `Gen.ctlMaxLength`
+records the constant, `Props.C01.C01_max_length` shows it is no smaller, and the harness runs lines up to that length).
 -/
 namespace TxV.Ctl
 
